@@ -118,7 +118,7 @@ Definition run_model_consistent (w : workspace) (c : run_case) : bool :=
   end.
 
 (* ---- exported aggregates of a collect run: key -> entries (a key without entries is the marker) ---- *)
-Record collect_case := { cc_part : list N; cc_use : bool; cc_keys : list (str * list N) }.
+Record collect_case := { cc_part : list N; cc_use : bool; cc_keys : list (str * list N); cc_obs : list violation }.
 
 Definition same_ids (a b : list N) : bool := ids_eqb (sort_ids a) (sort_ids b).
 
@@ -129,6 +129,17 @@ Definition aggmap_matches (m : aggmap N) (obs : list (str * list N)) : bool :=
 Definition collect_agrees (w : workspace) (c : collect_case) : bool :=
   match files_of w (cc_part c) with
   | Some fs => aggmap_matches (m_collect w (cc_use c) fs) (cc_keys c)
+  | None => false
+  end.
+
+(* the aggregate violations a collect run reports itself (none for a single file, those of its part otherwise) *)
+Definition collect_report_agrees (w : workspace) (c : collect_case) : bool :=
+  match files_of w (cc_part c) with
+  | Some fs =>
+      same_violations
+        (lint_aggregate_violations N (w_brules w) (w_ckeys w) (oracle_report (w_btable w)) (oracle_report (w_ctable w))
+           (m_collect w (cc_use c) fs) (length fs) None (carry (results_of cfile cf_name cf_comments fs)))
+        (cc_obs c)
   | None => false
   end.
 
